@@ -16,7 +16,8 @@ Section Expr.
   | ELt (a b : expr)                 (* a < b, a Python bool *)
   | EFault (i : nat) (e : expr)      (* raise if d[i] is True, else e *)
   | EWrongS (i : nat) (e : expr)     (* the string "bad" if d[i] is True, else e *)
-  | EWrongN (i : nat) (e : expr).    (* the number 1.5 if d[i] is True, else e *)
+  | EWrongN (i : nat) (e : expr)     (* the number 1.5 if d[i] is True, else e *)
+  | EVec (fields : list nat).         (* the tuple (d[i], d[j], ...) *)
 
   Definition is_true (v : value N) : bool :=
     match v with VBool true => true | _ => false end.
@@ -62,6 +63,15 @@ Section Expr.
         match nth_error d i with
         | Some v => if is_true v then QV (VNum (ndy 3 (-1))) else eval e' d
         | None => QRaise
+        end
+    | EVec fields =>
+        (* a component that is not a number makes every consumer raise: modelled by a string *)
+        match fold_right (fun i acc => match nth_error d i, acc with
+                                       | Some v, Some l => match as_real v with Some x => Some (x :: l) | None => None end
+                                       | _, _ => None
+                                       end) (Some []) fields with
+        | Some l => QV (VVec l)
+        | None => QV (VStr "not a vector of numbers")
         end
     end.
 
